@@ -16,6 +16,7 @@ Alpha == <<
   Recv_(3, 255, 0, 17, P20), Recv_(1, 255, 0, 17, P20), Recv_(2, 255, 0, 17, P20), Recv_(4, 255, 0, 17, P20),
   Recv_(1, 1, 0, 6, Pa), Recv_(2, 0, 0, 6, Pa),                                  \* child presentations
   RecvF(3, 0, 1, 0, Pa, "pres", 0), RecvF(1, 1, 1, 0, Pa, "pres", 0), RecvF(3, 255, 3, 0, P57, "pres", 0),
+  Send_(3, 255, 3, 19, PEmpty, TRUE), Send_(1, 255, 3, 19, PEmpty, TRUE),        \* the application asks for a presentation itself
   Cycle_
 >>
 Inits == << St(Reg, "2.0", "2.0", TRUE), St(Reg, "2.1", "2.1", TRUE), St(Reg, "2.2", "2.2", TRUE),
